@@ -46,10 +46,10 @@ def known_block() -> str:
 def seeded_block() -> str:
     m = json.loads((V / "seeded" / "MATRIX.json").read_text())
     unin = {}
-    for name in ("MATRIX-wave2-uninformed.json", "MATRIX-wave3-uninformed.json", "MATRIX-wave4-uninformed.json"):
+    for name in ("MATRIX-wave2-uninformed.json", "MATRIX-wave3-uninformed.json", "MATRIX-wave4-uninformed.json", "MATRIX-wave5-uninformed.json"):
         p = V / "seeded" / name
         if p.exists():
-            tag = {"wave2": "-b-", "wave3": "-c-", "wave4": "-d-"}[name.split("-")[1]]
+            tag = {"wave2": "-b-", "wave3": "-c-", "wave4": "-d-", "wave5": "-e-"}[name.split("-")[1]]
             unin.update({k: v for k, v in json.loads(p.read_text()).items() if tag in k})
     out = ["| seed | property | what was changed | caught by own check (rules) | other checks | when first run (uninformed) |", "|---|---|---|---|---|---|"]
     for sid, r in sorted(m.items()):
